@@ -380,6 +380,23 @@ def variant_regions(body, crate, adt, place_pred=None):
     return out
 
 
+def variant_only_regions(body, crate, adt, place_pred=None):
+    """[(set({V}), blocks that can run only when the inspected value is V)] on the flag-folded CFG: works for `match x { V => ..}`,
+    `if matches!(x, V) && c {..}` and `let is_v = matches!(x, V); .. if is_v {..}` alike."""
+    names = variant_names(crate, adt) or []
+    reach = {v: variant_reach(body, crate, adt, v, place_pred) for v in names}
+    out = []
+    for v in names:
+        others = set()
+        for w in names:
+            if w != v:
+                others |= reach[w]
+        only = reach[v] - others
+        if only:
+            out.append(({v}, only))
+    return out
+
+
 def in_variant_region(body, crate, bb, adt, allowed, place_pred=None):
     """bb lies in a region reachable only through edges of a discriminant switch on `adt` whose
     variant set is a subset of `allowed`."""
